@@ -141,6 +141,7 @@ type mqQueue struct {
 	told      bool // Shutdown() was called on it by the peer manager
 	exited    bool // its goroutine ran its shutdown callback
 	sendingNo int  // >0 while inside SendMsg
+	inNet     int  // >0 while the queue's goroutine is inside a network call (dial or write): it has certainly not run its final drain yet
 }
 
 type mqWorld struct {
@@ -168,6 +169,7 @@ type mqWorld struct {
 type mqBInfo struct {
 	q           *mqQueue
 	deadAtBuild bool // the queue had been shut down before the (last) build into this builder
+	busyAtBuild bool // some AllocateAndBuildMessage call into this builder returned while the queue's goroutine was inside a network call, i.e. before its final drain
 }
 
 func (w *mqWorld) violate(sig, what string) { w.viol = append(w.viol, sig+"|"+what) }
@@ -198,6 +200,8 @@ type mqNet struct {
 }
 
 func (n *mqNet) ConnectTo(ctx context.Context, p peer.ID) error {
+	n.q.inNet++
+	defer func() { n.q.inNet-- }()
 	n.w.dials++
 	if ch, ok := n.w.dialCh[n.w.dials]; ok {
 		close(ch) // a driver waits for this dial to be in flight
@@ -221,6 +225,8 @@ type mqSender struct{ n *mqNet }
 func (s *mqSender) Close() error { return nil }
 func (s *mqSender) Reset() error { return nil }
 func (s *mqSender) SendMsg(ctx context.Context, m gsmsg.GraphSyncMessage) error {
+	s.n.q.inNet++
+	defer func() { s.n.q.inNet-- }()
 	w := s.n.w
 	w.sends++
 	vsched.Yield() // the write is in flight
@@ -621,6 +627,9 @@ func mqRun(cfg vsched.Config, sc mqScenario) (*mqObs, *vsched.Sched) {
 			switch {
 			case !inQueue:
 				causes["message-was-extracted-for-sending"] = true
+			case bi != nil && bi.busyAtBuild:
+				// the queue's goroutine was still sending when the message was queued: its final drain came later
+				causes["queued-before-the-final-drain"] = true
 			case bi != nil && bi.deadAtBuild:
 				causes["queued-into-shut-down-queue"] = true
 			case bi != nil && bi.q.exited:
@@ -661,6 +670,7 @@ func (w *mqQueueWrap) Shutdown() {
 	w.q.mq.Shutdown()
 }
 func (w *mqQueueWrap) AllocateAndBuildMessage(size uint64, fn func(*messagequeue.Builder)) {
+	var touched *mqBInfo
 	w.q.mq.AllocateAndBuildMessage(size, func(b *messagequeue.Builder) {
 		dead := w.q.told || w.q.exited || doneClosed(w.q.mq)
 		bi := w.q.w.binfo[b]
@@ -668,6 +678,7 @@ func (w *mqQueueWrap) AllocateAndBuildMessage(size uint64, fn func(*messagequeue
 			bi = &mqBInfo{q: w.q}
 			w.q.w.binfo[b] = bi
 		}
+		touched = bi
 		bi.deadAtBuild = bi.deadAtBuild || dead
 		before := core.DeepKey(b.Builder, core.DeepOpts{BytesAsLen: true, MaxDepth: 6})
 		fn(b)
@@ -676,6 +687,11 @@ func (w *mqQueueWrap) AllocateAndBuildMessage(size uint64, fn func(*messagequeue
 			w.q.w.reservedNotBuiltSizes = append(w.q.w.reservedNotBuiltSizes, size)
 		}
 	})
+	// the whole call (build and the work signal that follows it) finished while the queue's goroutine was
+	// still inside a network call: its final drain comes later and must find the message
+	if touched != nil && w.q.inNet > 0 {
+		touched.busyAtBuild = true
+	}
 }
 
 // order oracle: per driver thread, items leave in build order
@@ -774,6 +790,9 @@ func mqJudge(id string, sc mqScenario, o *mqObs) *core.Violation {
 			}
 			if strings.Contains(o.unresCause, "message-was-extracted-for-sending") {
 				cause = "message-was-extracted-for-sending"
+			}
+			if strings.Contains(o.unresCause, "queued-before-the-final-drain") {
+				cause = "message-queued-while-the-queue-was-still-sending"
 			}
 			return mk("never-reported/"+cause, strings.Join(o.unresolved, "; ")+" ("+o.unresCause+")")
 		}
